@@ -551,6 +551,19 @@ var EventDecls = map[string]string{}
 
 // EventTerm is the SMT term of one event: an uninterpreted constructor per (name, argument sorts).
 func EventTerm(ev Event, sorts []string) *sx.T {
+	// byte strings are compared by content: event constructors take the bytes, not the nullable value
+	if len(sorts) == len(ev.Args) {
+		ns := make([]string, len(sorts))
+		na := make([]*sx.T, len(ev.Args))
+		for i := range sorts {
+			ns[i], na[i] = sorts[i], ev.Args[i]
+			if sorts[i] == "NB" {
+				ns[i], na[i] = "String", Bv(ev.Args[i])
+			}
+		}
+		sorts = ns
+		ev = Event{Name: ev.Name, Args: na, Sorts: ns}
+	}
 	name := "ev_" + strings.NewReplacer(".", "_", "-", "_").Replace(ev.Name) + fmt.Sprintf("_%d", len(ev.Args))
 	key := name + "/" + strings.Join(sorts, ",")
 	if _, ok := EventDecls[key]; !ok {
@@ -756,6 +769,10 @@ func (e *Env) call(x *ECall) TV {
 		a := e.Tr(x.Args[0])
 		Declare("uf:contract_CreateStandardAccount", "(declare-fun contract_CreateStandardAccount (String) NB)")
 		return TV{T: sx.App("contract_CreateStandardAccount", toBytes(a)), Ty: Type{K: KNB}}
+	case x.Fn == "txhash":
+		// hash of the transaction being executed (runtime.GetScriptContainer().Hash)
+		Declare("uf:runtime_GetScriptContainer", "(declare-const runtime_GetScriptContainer Transaction)")
+		return TV{T: sx.App("Transaction_Hash", sx.Atom("runtime_GetScriptContainer")), Ty: Type{K: KNB}}
 	case x.Fn == "self":
 		Declare("uf:runtime_GetExecutingScriptHash", "(declare-const runtime_GetExecutingScriptHash NB)")
 		return TV{T: sx.Atom("runtime_GetExecutingScriptHash"), Ty: Type{K: KNB}}
